@@ -1,7 +1,7 @@
 """C11: any byte string as input file is handled cleanly: failure, no crash, no output."""
 from props.suite import *
 
-THEOREMS = ["C11_verify_total", "C11_unauthentic_input_fails_cleanly", "C11_structural_rejections", "C11_output_bounded_by_body"]
+THEOREMS = ["C11_verify_total", "C11_unauthentic_input_fails_cleanly", "C11_structural_rejections", "C11_output_bounded_by_body", "C11_decrypt_total"]
 
 
 def run(ck):
